@@ -77,7 +77,7 @@ def _run_shards(prop: str, jobs: list[dict], tmp: str, max_procs: int, timeout_s
             shard_env = dict(child_env)
             shard_env["PYTHONHASHSEED"] = str((job["seed"] * 7919 + i * 104729) % 4294967295)
             proc = subprocess.Popen(
-                [env.PYTHON, "-B"] + (["-O"] if i % 8 == 5 else []) + ["-m", "vf.worker", prop, sp, rp],
+                [env.PYTHON, "-B"] + (["-O"] if i % 8 == 5 else []) + list(job["shard"].get("python_flags", [])) + ["-m", "vf.worker", prop, sp, rp],
                 cwd=env.ROOT,
                 env=shard_env,
                 stdout=subprocess.DEVNULL,
